@@ -100,16 +100,32 @@ class Analysis(af.Analysis):
         return False
 
 
-def make_model():
-    return af.Model(af.Gaussian, centre=af.UniformPrior(-5.0, 5.0), normalization=1.0,
+def make_model(variant=0):
+    # variant: another model (other identifier) with the same parameters and the same likelihood range
+    return af.Model(af.Gaussian, centre=af.UniformPrior(-5.0, 5.0), normalization=1.0 + variant,
                     sigma=af.UniformPrior(-5.0, 5.0))
 
 
-def make_search(case, session=None):
+def fit_components(fit, identifier=None):
+    """The harness's own statement of the documented layout: <output>/<path_prefix>/<unique_tag>/<name>[/<identifier>]
+    (empty parts dropped); the archive is that path + ".zip", the archive being written + ".zip.tmp"."""
+    comps = [c for c in (fit.get("prefix") or "").split("/") if c] + [c for c in (fit.get("tag"), fit.get("name")) if c]
+    if fit.get("ident"):
+        comps.append(identifier)
+    return comps
+
+
+def make_search(case, session=None, fit=None):
+    kw = {"name": "fit"}
+    if fit is not None:
+        # a fit of a `neighbours` history: its own name / path prefix / unique tag, with or without the identifier folder
+        kw = {"name": fit["name"], "path_prefix": fit.get("prefix") or None, "unique_tag": fit.get("tag") or None,
+              "paths": af.DirectoryPaths(name=fit["name"], path_prefix=fit.get("prefix") or None,
+                                         unique_tag=fit.get("tag") or None, is_identifier_in_paths=bool(fit.get("ident")))}
     if case["search"] == "drawer":
-        return af.Drawer(name="fit", total_draws=4, session=session)
+        return af.Drawer(total_draws=4, session=session, **kw)
     if case["search"] == "lbfgs":
-        return af.LBFGS(name="fit", iterations_per_update=1, maxiter=int(case["updates"]), session=session)
+        return af.LBFGS(iterations_per_update=1, maxiter=int(case["updates"]), session=session, **kw)
     if case["search"] == "dynesty":
         return af.DynestyStatic(name="fit", nlive=20, iterations_per_update=150, number_of_cores=1, force_x1_cpu=True,
                                 session=session)
@@ -143,6 +159,8 @@ def config_dir(case):
 def role_of(rel):
     """fit/<id>/<sub> -> role ; fit/<id>.zip -> Zip."""
     parts = rel.split("/")
+    if parts[0] == "foreign":
+        return "Other:" + rel
     if len(parts) == 2 and parts[1].endswith(".zip"):
         return "Zip"
     if len(parts) == 2 and parts[1].endswith(".zip.tmp"):
@@ -152,6 +170,18 @@ def role_of(rel):
     sub = "/".join(parts[2:])
     return ROLES.get(sub, "Other:" + sub)
 
+
+
+def canon_rel(r, folder):
+    """neighbours histories: the names of the fit whose folder is `folder` as fit/x/..., fit/x.zip, fit/x.zip.tmp;
+    every other name under the output directory as foreign/<name> (role Other:...)."""
+    if r == folder or r.startswith(folder + "/"):
+        return "fit/x" + r[len(folder):]
+    if r == folder + ".zip":
+        return "fit/x.zip"
+    if r == folder + ".zip.tmp":
+        return "fit/x.zip.tmp"
+    return "foreign/" + r
 
 
 # --------------------------------------------------------------------------------------
@@ -171,9 +201,11 @@ class Hook:
         self.occ = 0
         self.ll_calls = 0
         self.main_pid = os.getpid()
+        self.folder = None      # neighbours histories: the running fit's folder relative to the output directory
 
     def rel(self, p):
-        return p[len(self.root):]
+        r = p[len(self.root):]
+        return r if self.folder is None else canon_rel(r, self.folder)
 
     def die(self, truncated=None):
         self.active = False
@@ -194,6 +226,18 @@ class Hook:
         """Called just BEFORE mutation `kind` on absolute `path`."""
         k = len(self.trace)
         rel = self.rel(path)
+        if self.folder is not None:
+            # the names really used, as they are (neighbours histories): marker, archive, temporary archive
+            real = path[len(self.root):]
+            names = self.extra.setdefault("names", {})
+            if kind == "W" and os.path.basename(path) == ".completed":
+                names["marker"] = real
+            elif kind == "ZTW":
+                names["ziptmp"] = real
+            elif kind == "ZW" or (kind == "MV" and src is not None and src.endswith(".zip.tmp")):
+                names["zip"] = real
+            elif kind == "R" and real.endswith(".zip"):
+                names["zip"] = real
         if self.crash is not None:
             variant = self.crash["variant"]
             if self.ck is None:
@@ -368,6 +412,16 @@ def result_info(result):
     return out
 
 
+def identifier_of(search, model, fit):
+    """The identifier `search.fit` will use (it sets paths.model and paths.unique_tag before anything else)."""
+    if not fit.get("ident"):
+        return None
+    paths = search.paths
+    paths.model = model
+    paths.unique_tag = search.unique_tag
+    return paths.identifier
+
+
 def child(case, outdir, run_index, crash, report_path):
     try:
         conf.instance.push(new_path=config_dir(case), output_path=outdir)
@@ -376,10 +430,13 @@ def child(case, outdir, run_index, crash, report_path):
         # with check_likelihood_function the likelihood must not change between runs: no run tag
         analysis = Analysis(0 if case.get("chk") else run_index)
         session = af.db.open_database(os.path.join(outdir, "db.sqlite")) if case.get("db") else None
-        search = make_search(case, session)
-        model = make_model()
+        fit = case["fits"][case["runs"][run_index]["fit"]] if case.get("fits") else None
+        search = make_search(case, session, fit)
+        model = make_model(fit.get("variant", 0) if fit else 0)
         hook = Hook(outdir, crash, report_path)
         hook.extra = {"identifier": None}
+        if fit is not None:
+            hook.folder = "/".join(fit_components(fit, identifier_of(search, model, fit)))
         analysis.hook = hook
         sys.addaudithook(hook)
         rep = {}
@@ -395,6 +452,7 @@ def child(case, outdir, run_index, crash, report_path):
             rep["msg"] = str(e)[:200]
         rep["trace"] = hook.trace
         rep["bad_rename"] = hook.extra.get("bad_rename")
+        rep["names"] = hook.extra.get("names")
         rep["evals"] = analysis.evals
         rep["truncated"] = None
         with open(report_path, "w") as f:
@@ -457,11 +515,22 @@ def file_tag(role, path):
     return None, None
 
 
-def observe(outdir, partial, zsnap=None):
-    """Canonical view of folder + archive. `partial`: rel path -> 'empty'|'half' (from crash reports)."""
+def observe(outdir, partial, zsnap=None, fit_folder=None):
+    """Canonical view of folder + archive. `partial`: rel path -> 'empty'|'half' (from crash reports).
+    fit_folder (neighbours histories): the fit's folder relative to outdir; its archive is looked for under the documented
+    name <folder>.zip only, and partial is keyed by the canonical names fit/x/..."""
     base = os.path.join(outdir, "fit")
     folder, zips, strays = None, [], []
-    if os.path.isdir(base):
+    if fit_folder is not None:
+        p = os.path.join(outdir, fit_folder)
+        folder = p if os.path.isdir(p) else None
+        if os.path.lexists(p + ".zip"):
+            zips.append(p + ".zip")
+        if os.path.lexists(p + ".zip.tmp"):
+            strays.append(os.path.basename(p) + ".zip.tmp")
+        if os.path.lexists(p) and not os.path.isdir(p):
+            strays.append("not-a-directory:" + os.path.basename(p))
+    elif os.path.isdir(base):
         for name in sorted(os.listdir(base)):
             p = os.path.join(base, name)
             if os.path.isdir(p):
@@ -476,7 +545,7 @@ def observe(outdir, partial, zsnap=None):
         for root, _, fs in os.walk(folder):
             for fn in fs:
                 p = os.path.join(root, fn)
-                rel = os.path.relpath(p, outdir)
+                rel = os.path.relpath(p, outdir) if fit_folder is None else "fit/x/" + os.path.relpath(p, folder)
                 role = role_of(rel)
                 st = partial.get(rel, "full")
                 valid, tag = file_tag(role, p)
@@ -511,7 +580,58 @@ def observe(outdir, partial, zsnap=None):
                 z = {"state": "full", "members": sorted(mem, key=lambda x: x[0])}
         except zipfile.BadZipFile:
             z = {"state": "partial", "members": []}
+        except (IsADirectoryError, PermissionError):       # a directory under the archive's name
+            z = {"state": "not-a-file", "members": []}
     return {"files": files, "zip": z, "strays": strays, "nzips": len(zips), "inconsistent": inconsistent}
+
+
+def listing(top):
+    """[role, status, tag] of every file below `top` (a fit folder or an extracted archive), judged by content alone."""
+    out = []
+    for root, _, fs in os.walk(top):
+        for fn in fs:
+            p = os.path.join(root, fn)
+            role = role_of("fit/x/" + os.path.relpath(p, top))
+            valid, tag = file_tag(role, p)
+            st = "half" if valid is False else "full"
+            out.append([role, st, tag if st == "full" else None])
+    return sorted(out, key=lambda x: x[0])
+
+
+def copies_anywhere(outdir, folders):
+    """neighbours histories, independent of any naming rule: every folder holding `.completed` and every readable archive
+    anywhere under the output directory, with its content; and the names that belong to no fit of the history."""
+    copies, foreign = [], []
+    own = set()
+    for f in folders:
+        own.update((f, f + ".zip", f + ".zip.tmp"))
+    for root, dirs, fs in os.walk(outdir):
+        relroot = os.path.relpath(root, outdir)
+        relroot = "" if relroot == "." else relroot
+        if ".completed" in fs:
+            copies.append({"where": relroot, "kind": "folder", "files": listing(root)})
+        inside = any(relroot == f or relroot.startswith(f + "/") for f in folders)
+        for fn in fs:
+            rel = os.path.join(relroot, fn)
+            p = os.path.join(root, fn)
+            if not inside and rel not in own and not rel.startswith("cfg_"):
+                foreign.append(rel)
+            if not inside and zipfile.is_zipfile(p):
+                tmp = os.path.join(SCRATCH, "zy_%d" % os.getpid())
+                shutil.rmtree(tmp, ignore_errors=True)
+                try:
+                    with zipfile.ZipFile(p) as z:
+                        if z.testzip() is None:
+                            z.extractall(tmp)
+                            copies.append({"where": rel, "kind": "archive", "files": listing(tmp)})
+                except Exception:  # noqa
+                    pass
+                shutil.rmtree(tmp, ignore_errors=True)
+        for d in list(dirs):
+            rel = os.path.join(relroot, d)
+            if not inside and rel in own and rel not in folders:
+                foreign.append(rel + "/")      # a directory under the name of some fit's archive
+    return copies, sorted(foreign)[:12]
 
 
 def update_partial(partial, rep, zsnap, zip_at_start):
@@ -557,11 +677,19 @@ def run_history(case, idx):
     outdir = os.path.join(SCRATCH, "case_%d" % idx)
     shutil.rmtree(outdir, ignore_errors=True)
     os.makedirs(outdir)
-    partial = {}
-    zsnap = [{}]
-    zip_at_start = False
+    fits = case.get("fits")
+    nf = len(fits) if fits else 1
+    partial = [{} for _ in range(nf)]
+    zsnap = [[{}] for _ in range(nf)]
+    zip_at_start = [False] * nf
+    folders = None
+    if fits:
+        conf.instance.push(new_path=config_dir(case), output_path=outdir)
+        folders = ["/".join(fit_components(f, identifier_of(make_search(case, None, f), make_model(f.get("variant", 0)), f)))
+                   for f in fits]
     runs = []
     for ri, spec in enumerate(case["runs"]):
+        fi = spec.get("fit", 0) if fits else 0
         report = os.path.join(SCRATCH, "rep_%d_%d.json" % (idx, ri))
         if os.path.exists(report):
             os.remove(report)
@@ -575,9 +703,18 @@ def run_history(case, idx):
             rep = json.load(open(report))
         except Exception as e:  # noqa
             rep = {"outcome": "driver-error", "msg": "no report: %r" % e, "trace": []}
-        update_partial(partial, rep, zsnap, zip_at_start)
-        obs = observe(outdir, partial, zsnap[0])
-        zip_at_start = obs["nzips"] > 0
+        update_partial(partial[fi], rep, zsnap[fi], zip_at_start[fi])
+        more = {}
+        if fits:
+            fs_all = [observe(outdir, partial[j], zsnap[j][0], fit_folder=folders[j]) for j in range(nf)]
+            for j in range(nf):
+                zip_at_start[j] = fs_all[j]["nzips"] > 0
+            obs = fs_all[fi]
+            copies, foreign = copies_anywhere(outdir, folders)
+            more = {"fit": fi, "fs_all": fs_all, "copies": copies, "foreign": foreign}
+        else:
+            obs = observe(outdir, partial[0], zsnap[0][0])
+            zip_at_start[0] = obs["nzips"] > 0
         res = rep.get("result")
         runs.append({
             "outcome": rep["outcome"], "msg": rep.get("msg"),
@@ -587,16 +724,18 @@ def run_history(case, idx):
             "bad_rename": rep.get("bad_rename"),
             "truncated": [role_of(rep["truncated"][0]), rep["truncated"][1]] if rep.get("truncated") else None,
             "evals": rep.get("evals"),
+            "names": rep.get("names"),
             "result": res,
             "result_tag": tag_of_ll(float.fromhex(res["summary_ll"])) if res and res.get("summary_ll") else None,
             "samples_tag": (tag_of_ll(max(float.fromhex(x) for x in res["samples_ll"]))
                             if res and res.get("samples_ll") else None),
             "fs": obs,
         })
+        runs[-1].update(more)
         if os.path.exists(report):
             os.remove(report)
     shutil.rmtree(outdir, ignore_errors=True)
-    return {"runs": runs}
+    return {"runs": runs, "folders": folders}
 
 
 def main():
